@@ -113,18 +113,28 @@ class Simulator:
         if self.use_jacobian:
             try:
                 _jac = to_symbolic_model(self.model).jacobian()
+                _par_names = self.model.get_parameter_names()
                 _jac_fn = lambdify(
                     (
                         "time",
                         self.model.get_variable_names(),
-                        self.model.get_parameter_names(),
+                        _par_names,
                     ),
                     _jac,
                 )
+
+                def _par_values() -> list[float]:
+                    # numeric values (not Parameter containers), in the order of
+                    # the lambdified argument list; read at call time so that
+                    # parameter updates are seen
+                    if (cache := self.model._cache) is None:  # noqa: SLF001
+                        cache = self.model._create_cache()  # noqa: SLF001
+                    return [cache.all_parameter_values[k] for k in _par_names]
+
                 jac_fn = lambda t, x: _jac_fn(  # noqa: E731
                     t,
                     x,
-                    self.model._parameters.values(),  # noqa: SLF001
+                    _par_values(),
                 )
 
             except Exception as e:  # noqa: BLE001
